@@ -47,6 +47,8 @@ def gen_cases(rng, spec, n):
             c = kgen.gen_ack(rng, i)
         elif base == 'untilfail':
             c = kgen.gen_until_fail(rng, i)        # already a split plan
+        elif base == 'crashplan':
+            c = kgen.gen_crash_plan(rng, i)       # already a split plan
         elif base == 'untilreact':
             c = kgen.gen_until_react(rng, i)      # already a split plan
         elif base == 'store':
